@@ -1,3 +1,62 @@
-From YV Require Import PyBase Token.
-Example c07_smoke : skip_space [] = [].
-Proof. reflexivity. Qed.
+(* C07 -- the filter is total: arbitrary input never crashes or hangs it.
+   Only statements here, closed by `exact`.  Model: the whole filter.
+
+   In the model every loop of the implementation is a recursion on fuel and
+   every Python exception an explicit result Exc, so totality is two claims:
+   the fuel is never used up, and Exc is never returned.  Proved for every
+   input: both claims for the scanner, for the removal of pure action lines
+   (the one loop of the filter whose termination is not evident: it pushes
+   tokens back on its work list), for phrase replacement and for the
+   multi-language split.  Not proved: the same two claims for the expander
+   (coq/model/{Parser,Expand,Math,Exec}.v); there the check relies on the
+   correspondence run (outcome class of model and implementation on the
+   malformed stream) and on the oracle (no exception, no hang). *)
+From Coq Require Import String.
+From YV Require Import PyBase CharTables Token Utils Scanner Rpal PState Parser Exec Ml
+                       Replace ReplaceProofs RpalProofs TotalProofs Catalogue.
+Open Scope Z_scope.
+
+(* (1) scanner: a pure function of the text; the fuel scan() passes is
+   never used up -- any larger amount gives the same tokens *)
+Theorem C07_scanner_total : forall P latex extra,
+  scan_aux P latex (S (length latex) + extra) latex 0 = scan P latex.
+Proof. exact scan_fuel_enough. Qed.
+Print Assumptions C07_scanner_total.
+
+(* (2) removal of pure action lines: returns for every token list (no
+   IndexError, fuel 4n+4 suffices: the work list shrinks in every turn) *)
+Theorem C07_action_lines_total : forall is_space tokens,
+  exists r, remove_pure_action_lines is_space tokens = Ok r.
+Proof. exact rpal_total. Qed.
+Print Assumptions C07_action_lines_total.
+
+(* (3) phrase replacement: returns for every text, position list of the
+   same length and rule list *)
+Theorem C07_replacements_total : forall is_space is_alpha is_word lines txt pos,
+  length txt = length pos ->
+  exists t' p', replace_phrases is_space is_alpha is_word txt pos lines = Ok (t', p')
+                /\ length t' = length p'.
+Proof. exact replace_phrases_total. Qed.
+Print Assumptions C07_replacements_total.
+
+(* (4) multi-language split: returns for every token stream, provided each
+   language has a non-empty collection of placeholders ... *)
+Theorem C07_language_split_total : forall is_space check_lang thresh toks main rot,
+  rot_ok check_lang rot ->
+  exists res, get_txt_pos_ml is_space check_lang thresh toks main rot = Ok res.
+Proof. exact get_txt_pos_ml_total. Qed.
+Print Assumptions C07_language_split_total.
+
+(* ... which holds for the collections a parser of /repo starts with *)
+Theorem C07_collections_present : forall lang multi simple reader,
+  rot_ok (check_parser_lang py_tables)
+         (rot_change (init_state py_tables lang multi simple reader)).
+Proof. exact (fun lang multi simple reader =>
+                rot_ok_init py_tables lang multi simple reader (eq_refl true)). Qed.
+Print Assumptions C07_collections_present.
+
+Example C07_nonvacuous :
+  exists r, remove_pure_action_lines py_isspace
+              [TextT 0 [97; 10]%N; ActionT 2; SpaceT 2 [10]%N; TextT 3 [98]%N] = Ok r
+            /\ map txt r = [[97; 10]; [98]]%N.
+Proof. eexists. split; reflexivity. Qed.
